@@ -384,6 +384,13 @@ def run_case(case):
                 viol.append(V('not-closed', 'not-closed:' + sig_tail, 'process not closed after ending EXCEPTED'))
             if rec['task'] != ['done']:
                 viol.append(V('stepping-not-returned', 'stepping-not-returned:' + sig_tail, 'stepping task %s' % (rec['task'],)))
+            # whoever asked for a kill is not told that the process was killed
+            futs = dict(rec['futs'])
+            for a in rec['acts']:
+                if a['kind'] == 'kill' and a['live_before'] and (a['ret'] == ['value', True] or futs.get(a['n']) == ['result', True]):
+                    viol.append(V('kill-reported-true', 'kill-reported-true:' + sig_tail, 'the process ended EXCEPTED (fault in %s) but kill() reported True (%s / %s)' % (
+                        where, a['ret'], futs.get(a['n']))))
+                    break
     elif cls == 'listener':
         a, b = _summary(rec), _summary(ref)
         if a != b:
